@@ -200,7 +200,7 @@ theorem respond_inv (s : State) (r : ReqId) (prov : Addr) (code : Nat) (out : Ou
         obtain ⟨s1, e1⟩ := res
         dsimp only
         have hcons : ¬ isModAcct s.cfg x0.cons := h.x.ctxCons _ x0 hx
-        obtain ⟨y, hy, hbind⟩ := h.bound r q hq
+        obtain ⟨y, hy, hbind, _⟩ := h.bound r q hq
         rw [hx] at hy; injection hy with hy; subst hy
         rw [← hprov] at hbind
         have hB1 := settle_invB h.b h.static hcons hs
@@ -224,7 +224,7 @@ theorem respond_inv (s : State) (r : ReqId) (prov : Addr) (code : Nat) (out : Ou
           rw [hprov]
           refine XInv.deactivate h.x hq hx hact c1 c2 c3 c4 c5 c6 ?_ ?_
           · rcases c7 with c7 | c7
-            · left; exact c7
+            · left; exact ⟨c7.1, Nat.le_of_eq c7.2⟩
             · right; left; exact c7
           · intro r2 hr2
             rw [Map.get_set] at hr2
@@ -236,10 +236,10 @@ theorem respond_inv (s : State) (r : ReqId) (prov : Addr) (code : Nat) (out : Ou
           rw [completeBatch_fst]
           refine { static := h.static, b := hB1, x := ?_, m := hM1, bound := ?_ }
           · exact hX _ rfl rfl rfl hwf rfl rfl (Or.inr ⟨rfl, heq⟩)
-          · exact (BoundInv.setCtx (h.bound.bindingsGrow hbs) hx rfl)
+          · exact (BoundInv.setCtx (h.bound.bindingsGrow hbs) hx ⟨rfl, rfl⟩)
         · rename_i hne
           refine { static := h.static, b := hB1, x := ?_, m := hM1, bound := ?_ }
           · exact hX _ rfl rfl rfl hwf rfl rfl (Or.inl ⟨hrun, rfl⟩)
-          · exact (BoundInv.setCtx (h.bound.bindingsGrow hbs) hx rfl)
+          · exact (BoundInv.setCtx (h.bound.bindingsGrow hbs) hx ⟨rfl, rfl⟩)
 
 end SM
